@@ -35,8 +35,8 @@ RULE = ("schedule cases = operation in {asnumpy, average, average_split, align (
 TOLERANCES = {"rel": 1e-6, "reduction_rel": 1e-5}
 MIN_DECIDED = {"quick": 400, "thorough": 8000}
 MAX_JOBS = 8
-OPS = ["asnumpy", "average", "average_split", "align", "align-rot", "align_multi", "score", "landscape", "apply",
-       "classify", "group_align"]
+OPS = ["asnumpy", "average", "average_split", "align", "align-rot", "align_multi", "score", "landscape",
+       "landscape-rot", "apply", "classify", "group_align"]
 SCHEDS = ["threads", "shuffle", "yield", "yield-cache", "delay"]
 
 
@@ -122,6 +122,9 @@ def _run_op(op, loader, tmpl, tmpl2, Model, tilt=False):
     if op == "landscape":
         return [np.asarray(loader.construct_landscape(tmpl, max_shifts=2.0, alignment_model=Model, upsample=2,
                                                       **tk).compute())]
+    if op == "landscape-rot":
+        return [np.asarray(loader.construct_landscape([tmpl, tmpl2], max_shifts=2.0, alignment_model=Model, upsample=1,
+                                                      rotations=rots, **tk).compute())]
     if op == "apply":
         df = loader.apply(np.mean, np.std, schema=["m", "s"])
         return [df.to_numpy().astype(np.float64)]
@@ -266,7 +269,7 @@ def _sched_case(case):
     S = p["S"]
     tmpl2 = gen.render_box((S, S, S), gen.make_blobs(rng, (S, S, S), sigma=(0.8, 1.1), r_sup=1.5))
     Model = model_class(p["model"] if p["op"] != "classify" else "ZNCC")
-    if p["model"] == "FSC" and p["op"] in ("landscape",):
+    if p["model"] == "FSC" and p["op"] in ("landscape", "landscape-rot"):
         Model = model_class("ZNCC")
     instr.install_cache_audit()
     instr.take_audits()
